@@ -309,6 +309,15 @@ theorem stepBody_strict (child : ChildFn) (env : Env) (op : Nat) (hop : op < 256
         have := i1.1; have := ix.1; have := i3.1; have := i4.1
         omega
 
+/-- **every instruction's cost grows with the work it causes** — copy instructions: the per-word copy fee is computed from the
+    same stack position that gives the number of bytes copied (the length operand of the memory rule), for every copy
+    instruction of the regenerated table (EXTCODECOPY has four operands: its length is at position 3, not 2) -/
+theorem copy_fee_reads_the_length :
+    Gen.Gas.table.all (fun e => match e.dyn, e.mem with
+      | .copyGas p _ w, .mem64 _ l => p == l && w ≥ 1
+      | .copyGas _ _ _, _ => false
+      | _, _ => true) = true := by decide
+
 theorem opAt_lt (env : Env) (pc : Nat) : opAt env pc < 256 := by
   unfold opAt
   split
